@@ -1069,7 +1069,11 @@ def gen_c07(tier, seed):
     n = 1 if tier == 'quick' else 20
     events = [[], ['md:0'], ['md:1'], ['md:2'], ['mu:0'], ['md:7'], ['wb:20002b:5', 'qb:41', 't:1e8480', 'sv'],
               ['wb:20000b:5', 'qa:42', 't:1e8480', 'sv'], ['t:fe5028'], ['wb:20000b:4'], ['md:0', 'wb:20002b:5', 'qb:31', 't:2dc6c0', 'sv'],
-              ['md:1', 't:fe5028']]
+              ['md:1', 't:fe5028'],
+              # both receivers ready at the same boundary, in either arrival order, with and without a mouse event
+              ['wb:20000b:5', 'wb:20002b:5', 'qa:42', 'qb:41', 't:1e8480', 'sv'],
+              ['wb:20000b:5', 'wb:20002b:5', 'qb:41', 't:1e8480', 'sv', 'qa:42', 't:3d0900', 'sv'],
+              ['wb:20000b:5', 'wb:20002b:5', 'qa:42', 't:1e8480', 'sv', 'qb:41', 't:3d0900', 'sv', 'md:2']]
     for ipl in range(16):
         for ev in events:
             for flags in (0, 0x100, 0x80, 0x180):           # handler PSW: none / R / I / R+I
